@@ -379,7 +379,7 @@ def gen_manifest(rnd):
         m.sts[st.name] = st
         m.phony_sources.add(s)
     for i in range(n):
-        if produced and rnd.random() < 0.16:
+        if produced and rnd.random() < 0.2:
             st = St("A%d" % i, PHONY)
             st.outs = ["alias%d" % i]
             k = rnd.randint(1, min(3, len(produced)))
@@ -418,7 +418,7 @@ def new_cmd(rnd, m, name, files, produced, aliases):
     rest = [f for f in files if f not in st.ins]
     if rest and rnd.random() < 0.4:
         st.imps = rnd.sample(rest, rnd.randint(1, min(2, len(rest))))
-    if aliases and rnd.random() < 0.25:
+    if aliases and rnd.random() < 0.35:
         a = rnd.choice(aliases)
         if a not in st.ins:
             st.imps.append(a)
